@@ -173,22 +173,18 @@ fn budget(prop: &str, tier: &str, seed: u64, scale: f64) -> Budget {
             sweeps.push(sweeps::c05_short_streams(!quick, !quick && checked));
             sweeps.push(sweeps::c05_base256_lengths(seed, if quick { 600 } else { 1600 }));
             sweeps.push(sweeps::c05_eci_charset_bytes());
-            if checked {
-                sweeps.push(sweeps::c05_string_path_streams());
-            }
-            if checked {
-                sweeps.push(sweeps::small_geometry("C05", if quick { 200 } else { 1300 }, if quick { 40 } else { 150 }));
-                sweeps.push(sweeps::dimension_aliases("C05", seed));
-            }
+            // all enumerations on both build profiles (C05 is stated for both)
+            sweeps.push(sweeps::c05_string_path_streams());
+            sweeps.push(sweeps::small_geometry("C05", if quick { 200 } else if checked { 1300 } else { 600 }, if quick { 40 } else { 150 }));
+            sweeps.push(sweeps::dimension_aliases("C05", seed));
         }
         "C08" => {
             random_runs = r(250_000, 80_000, 12_000_000, 3_000_000);
-            if checked {
-                sweeps.push(sweeps::c08_single_pixel(seed, if quick { 1 } else { 16 }));
-                sweeps.push(sweeps::small_geometry("C08", if quick { 330 } else { 1300 }, if quick { 40 } else { 150 }));
-                sweeps.push(sweeps::c08_track_faults(seed));
-                sweeps.push(sweeps::dimension_aliases("C08", seed));
-            }
+            // the release build repeats the enumerations once (wrapping arithmetic could change what is accepted)
+            sweeps.push(sweeps::c08_single_pixel(seed, if quick || !checked { 1 } else { 16 }));
+            sweeps.push(sweeps::small_geometry("C08", if quick { 330 } else if checked { 1300 } else { 600 }, if quick { 40 } else { 150 }));
+            sweeps.push(sweeps::c08_track_faults(seed));
+            sweeps.push(sweeps::dimension_aliases("C08", seed));
         }
         _ => {
             eprintln!("unknown property {}", prop);
